@@ -52,7 +52,7 @@ def K.wf : K → Bool
   | .scopes _ => true
 
 def Pc.wf : Pc → Bool
-  | .cCas k | .cWait k | .cCancel k | .cTake k | .cKids _ k | .cTakeD k | .cDrain _ k | .cDetS k | .cNil k | .cSig k => k.top
+  | .cCas k | .cWait k | .cCancel k | .cTake k | .cKids _ k | .cTakeD k | .cDrain _ k | .cDetS k | .cNil k | .cErr k | .cSig k => k.top
   | .kCas _ k | .kWait _ k | .kDetP _ k | .kDetS _ k | .kSig _ k => k.wf
   | .rChk k o | .rRead k o | .rMu k o | .rLock k o | .rRe k o | .rCtor k o | .rSet k o _ | .rTrk k o _ | .rSelf k o _
   | .rUnl k o _ => !(o && k == .a)
